@@ -1,7 +1,8 @@
 (* C10 -- a failed RaggedArray append leaves exactly the completed subarrays. *)
 From Coq Require Import ZArith List Bool.
 From Darr Require Import Base ArrayModel RaggedModel Spec
-     Proofs.ArrayRefine Proofs.RaggedBase Proofs.RaggedRefine Proofs.RaggedProps.
+     Proofs.ArrayRefine Proofs.RaggedBase Proofs.RaggedRefine Proofs.RaggedProps
+     Skel Gen_effects EffectOrder EffectOrderR Proofs.SkelProofs Proofs.SkelRProofs.
 Import ListNotations.
 Open Scope Z_scope.
 
@@ -59,3 +60,14 @@ Proof.
   - eapply Z.le_lt_trans; eassumption.
 Qed.
 Print Assumptions C10_index_limit.
+
+(* The recovery path as the present source spells it (tie by translation, see C17):
+   the effect log of every model call of RaggedArray.iterappend is a run of the control
+   skeleton regenerated from darr/raggedarray.py on every run -- per item values/ then
+   indices/ (RaggedArray._append, from its own skeleton), on failure both data files cut
+   back, then _update_lens (values, indices, top-level description, README). *)
+Theorem C10_recovery_order_from_source : forall h d its r h' es,
+  riterappend h d its = (r, h', es) ->
+  exists o, oc_match r o /\ rruns sk_ragged_iterappend o (map rkind_of es).
+Proof. exact riterappend_runs. Qed.
+Print Assumptions C10_recovery_order_from_source.
